@@ -53,6 +53,9 @@ def gen_member(r, used_ids):
         for k in keys:
             while True:
                 v = r.choice(["alpha", "beta", "check", "p", "orders-1", "x_2", "M", "m", "load.v", "orders.check"]) + str(r.randint(0, 99))
+                if r.random() < 0.3:
+                    # plain words (identities that end in a letter, e.g. in one of the letters of ':to' / ':from')
+                    v = r.choice(["first", "next", "last", "header", "footer", "root", "count", "customer", "from", "to", "auto", "form"])
                 if v not in used_ids:
                     break
             used_ids.add(v)
